@@ -169,7 +169,9 @@ def rp_variants(D, N, scalar, anymiss, rich=True):
     res = []
     for v in out:
         res.append(v + ["ctor"])
-    for v in out:
+    nthr = sum(1 for v in out if v[0] == "threshold")
+    # the live object first receives the all-recurrent matrix (largest threshold), then the rest
+    for v in [out[nthr - 1]] + list(reversed(out[:nthr - 1] + out[nthr:])):
         res.append(v + ["setter"])
     return res
 
@@ -316,7 +318,8 @@ def run_rp(rep, C, w):
                 keep = [i for i in range(N) if not miss[i]]
                 want = want[np.ix_(keep, keep)]
             if A.shape != want.shape or (A != want).any():
-                rep.fail(f"{cname}/{via}/adjacency-is-R-without-diagonal", wit, f"adjacency {A.tolist()} R {R.tolist()}")
+                tag = "missing/" if (mv and anymiss) else ""
+                rep.fail(f"{cname}/{tag}{via}/adjacency-is-R-without-diagonal", wit, f"adjacency {A.tolist()} R {R.tolist()}")
             wantdir = kind == "local_recurrence_rate"
             if bool(obj.directed) != wantdir:
                 rep.fail(f"{cname}/{via}/directed-flag", wit, f"directed={obj.directed} for {kind}")
